@@ -225,7 +225,7 @@ func c12Process(ctx *core.Ctx, res *core.Result) {
 			prepareWork(work, sc, 2)
 			holder := startProd(work, sc, j.h.front, nil, j.phase, "ctrl-holder", "")
 			ev := []string{fmt.Sprintf("holder=%s/%s paused at phase %d kill=%v", j.h.devType, j.h.front, j.phase, j.kill)}
-			if !waitFile(filepath.Join(holder.ctrl, "paused"), 10*time.Second) {
+			if !waitFile(filepath.Join(holder.ctrl, "paused"), 90*time.Second) {
 				holder.kill9()
 				add("holder-did-not-reach-phase", fmt.Sprintf("holder %v never reached phase %d", j.h, j.phase), ev)
 				results <- out
@@ -234,13 +234,13 @@ func c12Process(ctx *core.Ctx, res *core.Result) {
 			snap := treeSnapshot(work)
 			for ci, c := range conts {
 				cp := startProd(work, sc, c.front, nil, 0, fmt.Sprintf("ctrl-cont%d", ci), c.spelling)
-				exit, to := cp.wait(8 * time.Second)
+				exit, to := cp.wait(60 * time.Second)
 				out.evals++
 				e2 := append(append([]string{}, ev...), fmt.Sprintf("contender=%s spelling=%q exit=%d", c.front, c.spelling, exit))
 				msg := cp.stderr.String() + cp.stdout.String()
 				switch {
 				case to:
-					add("contender-blocked", "contender did not fail immediately (killed after 8 s)", e2)
+					add("contender-blocked", "contender did not fail immediately (killed after 60 s)", e2)
 				case exit != 1 || !strings.Contains(msg, "Approve in progress"):
 					add("contender-not-refused:"+c.front, fmt.Sprintf("contender exit=%d output=%q", exit, short(msg, 300)), e2)
 				}
@@ -256,13 +256,13 @@ func c12Process(ctx *core.Ctx, res *core.Result) {
 				holder.kill9()
 			} else {
 				os.WriteFile(filepath.Join(holder.ctrl, "resume"), []byte("go"), 0644)
-				if exit, to := holder.wait(20 * time.Second); to || exit != 0 {
+				if exit, to := holder.wait(120 * time.Second); to || exit != 0 {
 					add("holder-failed-after-release", fmt.Sprintf("holder exit=%d timeout=%v stderr=%s", exit, to, short(holder.stderr.String(), 300)), ev)
 				}
 			}
 			// a fresh run must obtain the lock and complete
 			fresh := startProd(work, sc, "do-compare", nil, 0, "ctrl-fresh", "")
-			exit, to := fresh.wait(20 * time.Second)
+			exit, to := fresh.wait(120 * time.Second)
 			out.evals++
 			if to || strings.Contains(fresh.stderr.String()+fresh.stdout.String(), "Approve in progress") {
 				add("lock-not-released", fmt.Sprintf("after the holder was %s a fresh run got: exit=%d %s", map[bool]string{true: "killed", false: "released"}[j.kill], exit,
